@@ -1,0 +1,20 @@
+//go:build verif
+
+package node
+
+// Contracts for the govc verifier (/verif). Comments only: this file adds no declarations.
+// Syntax: /verif/DESIGN.md section 3.5. Integers in specifications are mathematical.
+
+// ---- C05: field constraints -----------------------------------------------------------------------
+
+// every level of the typedef chain must hold the value in one of its alternatives
+//@ func (check fieldConstraints) checkRange(v val.Value, t *meta.Type) error
+//@   mode int
+//@   property C05
+//@   requires t != nil && rangeable(v)
+//@   requires forall k int :: 0 <= k && k < len(t.ranges) ==> wfRange(t.ranges[k], v)
+//@   assigns nothing
+//@   loop 1 invariant -1 <= rangeindex && rangeindex < len(t.ranges)
+//@   loop 1 invariant forall k int :: 0 <= k && k <= rangeindex ==> inRange(t.ranges[k], v)
+//@   loop 1 decreases len(t.ranges) - rangeindex
+//@   ensures (result == nil) == (forall k int :: 0 <= k && k < len(t.ranges) ==> inRange(t.ranges[k], v))
